@@ -35,6 +35,7 @@ MANIFEST = {
 }
 
 TYPES = ('list', 'tuple', 'dict', 'set')
+NAN = float('nan')     # one object: a set built from it twice holds it once, like any other scalar
 
 
 class Node:
@@ -589,7 +590,7 @@ def all_specs(tier):
     yield from specs(2, (1, 'a'), types=('dictk', 'tuple', 'set', 'list'))
     if not q:
         yield from specs(3, (1,), maxslots=2, types=('set', 'tuple', 'dictk'))
-    yield from specs(1, (1, 1.5, True, 'a', None))
+    yield from specs(1, (1, 1.5, True, 'a', None, NAN))
     yield from specs(2, (1, 1.5, True, 'a', None) if not q else (1, 'a', None))
     if q:
         yield from specs(3, (1,), maxslots=1)
